@@ -12,6 +12,7 @@ from base import Ctx
 from common import MachineryError, cps, text
 
 CLAUSES = {"non-library-exception", "class-not-a-present-defect", "is_valid-raised", "is_valid-not-bool",
+           "object-answers-differently-when-asked-again",
            "constructor-and-is_valid-disagree", "validate-and-is_valid-disagree",
            "constructor-and-validate-raise-different-errors"}
 # the acceptance clauses belong to C01 / C04; here they only matter through the
